@@ -6,7 +6,7 @@ SCALARS = (0, 1, "s", None, True, 1.5)
 CONTAINERS = ({}, [], {"a": 0}, [0], {"a": {"b": [0]}}, [[0], {"a": 0}])
 VALUES_FULL = SCALARS + CONTAINERS
 VALUES_CORE = (0, "s", None, {}, {"a": {"b": [0]}}, [[0], {"a": 0}])
-VALUES_MIN = (0, {"a": {"b": [0]}}, [[0], {"a": 0}])
+VALUES_MIN = (0, None, {"a": {"b": [0]}}, [[0], {"a": 0}])
 
 INIT_DICT = {"a": {"b": [0, {"c": 0}]}, "k": 0}
 INIT_LIST = [0, [1, {"a": 0}], {"b": [0]}]
